@@ -252,6 +252,9 @@ func (c *Chain) storageAbs(users []string) (stState, []string) {
 // deleted (what was not released stays in the account)
 var seenGaugeAccs []string
 
+// escrow accounts of gauges seeded through genesis (tracked from the first record on)
+var seededGaugeAccs []string
+
 func noteGaugeAcc(a string) {
 	for _, x := range seenGaugeAccs {
 		if x == a {
@@ -890,6 +893,24 @@ func runStorage(profile string, seed int64, histories, steps int, out *Emitter) 
 				bg.Supply = bg.Supply.Add(sdk.NewInt64Coin("ujkl", total))
 				gs[banktypes.ModuleName] = cdc.MustMarshalJSON(&bg)
 			}
+			if profile == "payments" && hi%4 == 3 {
+				// more live payment gauges than one listing page holds, each escrow account funded with what its gauge
+				// records (a genesis exported from a grown network right after the deposits)
+				var bg banktypes.GenesisState
+				cdc.MustUnmarshalJSON(gs[banktypes.ModuleName], &bg)
+				for n := 0; n < 104; n++ {
+					id := sha256.Sum256([]byte(fmt.Sprintf("seeded-gauge-%04d", n)))
+					amt := int64(50_000 + 137*n)
+					pg := sttypes.PaymentGauge{Id: id[:], Start: time.Unix(genesisUnix, 0).UTC(), End: time.Unix(genesisUnix, 0).UTC().Add(time.Duration(30+n) * 24 * time.Hour),
+						Coins: sdk.NewCoins(sdk.NewInt64Coin("ujkl", amt))}
+					sg.PaymentGauges = append(sg.PaymentGauges, pg)
+					acc, _ := sttypes.GetGaugeAccount(pg)
+					seededGaugeAccs = append(seededGaugeAccs, acc.String())
+					bg.Balances = append(bg.Balances, banktypes.Balance{Address: acc.String(), Coins: pg.Coins})
+					bg.Supply = bg.Supply.Add(pg.Coins...)
+				}
+				gs[banktypes.ModuleName] = cdc.MustMarshalJSON(&bg)
+			}
 			if noGauges {
 				// everybody holds a plan from genesis: files are posted against plans, no gauge ever exists
 				for _, u := range users {
@@ -908,8 +929,9 @@ func runStorage(profile string, seed int64, histories, steps int, out *Emitter) 
 		if hi%2 == 1 {
 			genesisPoorUsers = 1 // an account that can afford small prices only: transfers that fail half-way through a handler
 		}
+		seededGaugeAccs = nil
 		c := NewChain(mix.users, []string{"ujkl", "utest"}, mut)
-		seenGaugeAccs = nil
+		seenGaugeAccs = append([]string{}, seededGaugeAccs...)
 		g := &storageGen{c: c, r: r, data: map[string]*dataFile{}, mix: mix, qr: rand.New(rand.NewSource(seed*7919 + int64(hi) + 17)), noGauges: noGauges, out: out, hi: hi}
 		for _, u := range c.Users {
 			g.users = append(g.users, u.String())
